@@ -1,6 +1,7 @@
 package main
 
 import (
+	"crypto/sha1"
 	"fmt"
 	"math"
 	"sort"
@@ -10,6 +11,7 @@ import (
 	"github.com/anz-bank/sysl/pkg/arrai/relmod"
 	"github.com/anz-bank/sysl/pkg/sysl"
 	"github.com/arr-ai/arrai/rel"
+	"google.golang.org/protobuf/proto"
 
 	"verifharness/common"
 )
@@ -246,8 +248,59 @@ func (in *interner) mtype(t *sysl.Type) string {
 		return "(MList " + in.mtype(x.List.Type) + ")"
 	case *sysl.Type_NoType_:
 		return "MNoType"
+	case *sysl.Type_Enum_:
+		return "MEnumT"
+	case *sysl.Type_Relation_:
+		return "MRelationT"
+	case *sysl.Type_Map_:
+		return fmt.Sprintf("(MMap %s %s)", in.mtypeOpt(x.Map.GetKey()), in.mtypeOpt(x.Map.GetValue()))
+	case *sysl.Type_OneOf_:
+		var ts []string
+		for _, m := range x.OneOf.GetType() {
+			ts = append(ts, in.mtypeOpt(m))
+		}
+		return "(MOneOf " + glist(ts) + ")"
+	case nil:
+		return "MUnset"
 	}
-	return "MOther"
+	bail(fmt.Sprintf("type of unknown kind %T", t.Type))
+	return ""
+}
+
+// a member / key / value type the code never dereferences may be absent
+func (in *interner) mtypeOpt(t *sysl.Type) string {
+	if t == nil {
+		return "MUnset"
+	}
+	return in.mtype(t)
+}
+
+// sysl.Value of a range bound: the model keeps integers, any other kind is CVOther
+func cval(v *sysl.Value) string {
+	if v == nil {
+		return "None"
+	}
+	if i, ok := v.Value.(*sysl.Value_I); ok {
+		return "(Some (CVInt " + gz(i.I) + "))"
+	}
+	return "(Some CVOther)"
+}
+
+func constraint(c *sysl.Type_Constraint) string {
+	if c == nil {
+		bail("nil constraint")
+	}
+	ln, rg, rs := "None", "None", "None"
+	if c.Length != nil {
+		ln = fmt.Sprintf("(Some (%s, %s))", gz(c.Length.Min), gz(c.Length.Max))
+	}
+	if c.Range != nil {
+		rg = fmt.Sprintf("(Some (%s, %s))", cval(c.Range.Min), cval(c.Range.Max))
+	}
+	if c.Resolution != nil {
+		rs = fmt.Sprintf("(Some (%s, %s))", gz(int64(c.Resolution.Base)), gz(int64(c.Resolution.Index)))
+	}
+	return fmt.Sprintf("(Co %s %s %s %s %s %s)", ln, gz(int64(c.Precision)), gz(int64(c.Scale)), rg, gz(int64(c.BitWidth)), rs)
 }
 
 func (in *interner) param(name string, t *sysl.Type) string {
@@ -343,15 +396,23 @@ func (in *interner) fields(defs map[string]*sysl.Type) string {
 		}
 		var cs []string
 		for _, c := range f.Constraint {
-			ln := "None"
-			if c.Length != nil {
-				ln = fmt.Sprintf("(Some (%s, %s))", gz(c.Length.Min), gz(c.Length.Max))
-			}
-			cs = append(cs, fmt.Sprintf("(Co %s %s %s)", ln, gz(int64(c.Precision)), gz(int64(c.Scale))))
+			cs = append(cs, constraint(c))
 		}
 		it = append(it, fmt.Sprintf("(Fi %s %s %s %s %s)", in.name(fn), in.mtype(f), gb(f.Opt), glist(cs), in.attrs(f.Attrs, f.SourceContexts)))
 	}
 	return glist(it)
+}
+
+// the expression of a view as opaque text: a digest of its deterministic wire form
+func exprDigest(e *sysl.Expr) string {
+	if e == nil {
+		return ""
+	}
+	b, err := proto.MarshalOptions{Deterministic: true}.Marshal(e)
+	if err != nil {
+		return "expr:?"
+	}
+	return fmt.Sprintf("expr:%x", sha1.Sum(b))
 }
 
 func enumItems(in *interner, items map[string]int64) (string, string) {
@@ -416,8 +477,22 @@ func (in *interner) module(m *sysl.Module, payBad func(string) bool) string {
 			if t == nil {
 				bail("nil type")
 			}
-			def := "DOther"
+			def := ""
 			switch x := t.Type.(type) {
+			case nil:
+				def = "DUnset"
+			case *sysl.Type_Map_:
+				def = fmt.Sprintf("(DMap %s %s)", in.mtypeOpt(x.Map.GetKey()), in.mtypeOpt(x.Map.GetValue()))
+			case *sysl.Type_OneOf_:
+				var ts []string
+				for _, m := range x.OneOf.GetType() {
+					ts = append(ts, in.mtypeOpt(m))
+				}
+				def = "(DOneOf " + glist(ts) + ")"
+			case *sysl.Type_NoType_:
+				def = "DNoType"
+			case *sysl.Type_List_:
+				def = "(DList " + in.mtypeOpt(x.List.GetType()) + ")"
 			case *sysl.Type_Tuple_:
 				def = "(DTuple " + in.fields(x.Tuple.GetAttrDefs()) + ")"
 			case *sysl.Type_Relation_:
@@ -432,14 +507,28 @@ func (in *interner) module(m *sysl.Module, payBad func(string) bool) string {
 				}
 				def = "(DEnum " + glist(it) + ")"
 			}
+			if def == "" {
+				bail(fmt.Sprintf("type declaration of unknown kind %T", t.Type))
+			}
 			tys = append(tys, fmt.Sprintf("(Td %s %s %s %s %s)", in.name(tn), in.name(t.Docstring), gb(t.Opt), def, in.attrs(t.Attrs, t.SourceContexts)))
 		}
 		for _, vn := range revKeys(app.Views) {
 			v := app.Views[vn]
-			if v == nil || v.RetType == nil {
-				bail("view without a return type")
+			if v == nil {
+				bail("nil view")
 			}
-			vws = append(vws, fmt.Sprintf("(Vi %s %s %s)", in.name(vn), in.mtype(v.RetType), in.attrs(v.Attrs, v.SourceContexts)))
+			ret := "None" // a view that declares no return type and for which none is inferred
+			if v.RetType != nil {
+				ret = "(Some " + in.mtype(v.RetType) + ")"
+			}
+			var vps []string
+			for _, p := range v.Param {
+				if p == nil {
+					bail("nil view parameter")
+				}
+				vps = append(vps, in.param(p.GetName(), p.GetType()))
+			}
+			vws = append(vws, fmt.Sprintf("(Vi %s %s %s %s %s)", in.name(vn), ret, in.attrs(v.Attrs, v.SourceContexts), glist(vps), in.name(exprDigest(v.Expr))))
 		}
 		apps = append(apps, fmt.Sprintf("(Ap %s %s %s %s %s %s\n  %s\n  %s\n  %s)", in.names(app.Name.Part), gstrs(app.Name.Part), in.name(app.LongName), in.name(app.Docstring), in.attrs(app.Attrs, app.SourceContexts), glist(mix), glist(eps), glist(tys), glist(vws)))
 	}
@@ -704,7 +793,7 @@ func project(cr *caseResult) (term string, ok bool) {
 			panic(r)
 		}
 	}()
-	if cr.o1.kind == "panic" && cr.o1.site != "parseReturnPayload" {
+	if cr.o1.kind == "panic" && cr.o1.site != "parseReturnPayload" && cr.o1.site != "parseFieldType" {
 		return "", false
 	}
 	in := newInterner()
